@@ -87,4 +87,13 @@ PROPS = {
         "trusted_base": ["roaring serialisation and zlib (flate2) are an abstract codec in the theorems: hypotheses unpack(pack s)=s and 'compressed stream starts with 78 9C' — both observed on every generated bitmap (the fact table is computed from the real bytes)", "url::Url data-URL handling, serde of Service/Status (correspondence only)", "document-level frame (other services untouched) is checked by the implementation-side oracle; the Lean model covers the addressed endpoint"],
         "assumptions": [],
     },
+    "C08": {
+        "translate": True,
+        "gens": ["C11"],
+        "diff_is_violation": False,
+        "trivial": ["bad-request", "err", "err@0", "err@1", "err@2", "err-into-jws"],
+        "rule": "streams: (1) corpus; (2) CompactJwsEncoder over 10 protected-header shapes x ~27 payloads (text, JSON with quotes, with '.', empty, binary, backslash, control characters, non-ASCII, url-safe, single space, single dot, random binary and random printable) x {NonDetached Default, NonDetached UrlSafe, Detached} x 3 signatures; FlattenedJwsEncoder over the same headers x 6 unprotected-header shapes x attached/detached (+ unprotected-only recipients); GeneralJwsEncoder with 1..2 (thorough 3) recipients over 8 recipient shapes, attached/detached; every produced token is decoded by the library's own decoder and compared with the model (token bytes / JSON members, signing inputs, decoded signature, claims) — the header serialisation S is a table computed by the library's serde layer; (3) storage-backed signing: 300 (thorough 4000) random JwsSignatureOptions combinations (attach_jwk, b64, typ, cty, url, nonce, kid, detached, custom parameters) x 3 methods in 3 scopes x 5 payload classes through JwkDocumentExt::create_jws + CoreDocument::verify_jws with real Ed25519 — implementation-side oracle only: verifies to what was signed under the own document/method/scope/nonce; rejected under an excluding scope, a wrong or one-sided nonce, another method's key, another document. Non-trivial = encoder accepted; distinct request lines.",
+        "trusted_base": ["header (de)serialisation S/P: parameters with hypothesis P(S h)=h; in the run S is a table computed by serde", "JSON envelope (member level in the model; serde by correspondence)", "storage-backed signing stream is implementation-only until the document model (C04) is connected", "Ed25519 (parameter)"],
+        "assumptions": [],
+    },
 }
